@@ -1,7 +1,33 @@
-(* commands for the reason model *)
+(* commands for the reason model (coq/Model/ReasonModel.v).  Glue only.
+     bw|<goal>|<prog>|<depth>             faithful model
+     bw_nodrop|<goal>|<prog>|<depth>      counterfactual: switch sw_nodrop
+     bw_fullparams|<goal>|<prog>|<depth>  counterfactual: switch sw_fullparams *)
 open Bbm_model
 open Bbm_util
 
+let string_of_bw = function
+  | BwInit -> "init"
+  | BwLinRec -> "linrec"
+  | BwSpinout -> "spinout"
+  | BwStepLimit -> "step_limit"
+  | BwDepthLimit -> "depth_limit"
+  | BwRefuted step -> "refuted:" ^ string_of_n step
+
+let cmd_bw (sw : bw_switches) goal prog depth : string =
+  let comp = comp_of_text prog in
+  let depth = n_of_string depth in
+  let r = match goal with
+    | "halt" -> cant_halt_sw sw comp depth
+    | "blank" -> cant_blank_sw sw comp depth
+    | "spin" -> cant_spin_out_sw sw comp depth
+    | _ -> failwith "bad goal" in
+  string_of_bw (unwrap r)
+
 let dispatch (fields : string list) : string option =
   match fields with
+  | ["bw"; goal; prog; depth] -> Some (cmd_bw bw_faithful goal prog depth)
+  | ["bw_nodrop"; goal; prog; depth] ->
+    Some (cmd_bw { sw_nodrop = true; sw_fullparams = false } goal prog depth)
+  | ["bw_fullparams"; goal; prog; depth] ->
+    Some (cmd_bw { sw_nodrop = false; sw_fullparams = true } goal prog depth)
   | _ -> None
